@@ -279,6 +279,10 @@ fn arg_fmts(spec: &Spec) -> Vec<Item> {
         v.push(Item::Fmt(name, vec![nk()], spec.clone()));
         v.push(Item::Fmt(name, vec![nk(), d2()], spec.clone()));
     }
+    // keys and defaults written with escapes and doubled characters (several text pieces for the parser)
+    v.push(Item::Fmt("X", vec![nk(), vec![Item::Lit("n/a ", "n/a "), Item::Lit("\\(", "("), Item::Lit("none", "none"), Item::Lit("\\)", ")")]], spec.clone()));
+    v.push(Item::Fmt("mdc", vec![nk(), vec![Item::Lit("{{", "{"), Item::Lit("x", "x"), Item::Lit("}}", "}")]], spec.clone()));
+    v.push(Item::Fmt("X", vec![vec![Item::Lit("k", "k")], vec![Item::Lit("((", "("), Item::Lit("d", "d")]], spec.clone()));
     for name in ["d", "date"] {
         v.push(Item::Fmt(name, vec![y()], spec.clone()));
         v.push(Item::Fmt(name, vec![y2(), vec![Item::Lit("utc", "utc")]], spec.clone()));
